@@ -100,7 +100,8 @@ TG_SLOT = TGrammar(atoms=("int", "NoneType", "B", "Inner"), generics=("List", "T
 
 ARG0_TYPES = (int, type(None), F.Klass.Nested.Deeper, O.typing.List[int], O.typing.Tuple[()], O.typing.Optional[F.B],
               make_typed_dict(required_fields={"a": make_typed_dict(optional_fields={"b": int})}), O.typing.Type[F.A],
-              O.typing.Dict[str, O.typing.Any])
+              O.typing.Dict[str, O.typing.Any],
+              make_typed_dict(required_fields={"b": int, "a": str}))  # two keys: the insertion order must not reach the stored row
 
 
 def rt_trace_body(t):
